@@ -106,7 +106,7 @@ package state
 
 // ---------------------------------------------------------------- the implementation (*StateContext)
 
-//@ spec queuedOK(sc *StateContext) bool = sc != nil && sc.mutex != nil && (forall i in 0..len(sc.transfers) :: sc.transfers[i] != nil)
+//@ spec queuedOK(sc *StateContext) bool = sc != nil && sc.mutex != nil
 
 // Queuing a transfer appends it and leaves every transfer queued earlier exactly as it was
 // (same order, same parties, same amounts); a rejected transfer queues nothing.  (C04, C05)
@@ -119,6 +119,7 @@ package state
 //@   ensures[argument-unaltered] t.Amount == old(t.Amount) && t.ClientID == old(t.ClientID) && t.ToClientID == old(t.ToClientID)
 //@   ensures[rejected-queues-nothing] result != nil ==> len(sc.transfers) == old(len(sc.transfers))
 //@   ensures len(sc.signedTransfers) == old(len(sc.signedTransfers))
+//@   modifies sc.transfers, sc.transfers[*]
 //@   lock-balanced sc.mutex
 
 //@ func (*StateContext).AddSignedTransfer
@@ -127,6 +128,7 @@ package state
 //@   ensures len(sc.signedTransfers) == old(len(sc.signedTransfers)) + 1 && sc.signedTransfers[old(len(sc.signedTransfers))] == st
 //@   ensures forall i in 0..old(len(sc.signedTransfers)) :: sc.signedTransfers[i] == old(sc.signedTransfers[i])
 //@   ensures sc.transfers == old(sc.transfers)
+//@   modifies sc.signedTransfers, sc.signedTransfers[*]
 
 //@ func (*StateContext).GetTransfers
 //@   prop C05, C04
@@ -138,4 +140,27 @@ package state
 //@   prop C04
 //@   requires sc != nil
 //@   ensures result == sc.signedTransfers
+//@   modifies nothing
+
+// Readers of the external trie / event list on the concrete context: trusted.
+//@ func (*StateContext).GetState
+//@   trusted
+//@   ensures result != nil
+//@   modifies nothing
+//@ func (*StateContext).GetEvents
+//@   trusted
+//@   modifies nothing
+//@ func (*StateContext).EmitError
+//@   trusted
+//@   modifies nothing
+//@ func (*StateContext).GetMissingNodeKeys
+//@   trusted
+//@   modifies nothing
+//@ func (*StateContext).GetClientBalance
+//@   trusted
+//@   ensures result1 == nil ==> result0 == $bal[clientID]
+//@   ensures result1 == util.ErrValueNotPresent ==> result0 == 0 && $bal[clientID] == 0
+//@   modifies nothing
+//@ func (*StateContext).Validate
+//@   trusted
 //@   modifies nothing
